@@ -54,11 +54,11 @@ Definition observed_of (c : case) : uobs :=
 Definition model_agrees (c : case) : bool :=
   match model_unpack c, observed_of c with
   | Ok (GPtr m), UOk v => gv_eqb m v
-  | Err r _, UErr s _ =>
-    (* with several unsuitable settings the implementation reports the first one it meets in
-       map order: only "an error" is compared (reasons are compared by the C14 stream, which
-       injects exactly one fault) *)
-    true
+  | Err r mp, UErr s p =>
+    (* struct fields are visited in declaration order, map entries in sorted order: the first
+       failure is the same one; where exactly one fault was injected the path is compared too *)
+    ereason_eqb r s &&
+    match c with CFault _ _ _ _ _ _ _ => String.eqb mp p | _ => true end
   | Panic, UPanic => true
   | OutOfModel, _ => true
   | _, _ => false
